@@ -380,6 +380,12 @@ RESOURCES = [
     resource([seg("strs", P("string")), seg("profile"), seg("items", P("int64"))], _INNER,
              _rests(_INNER, ("get", "update", "delete", "batch_get")) + [
                  finder("recent", _INNER, paging=True), action("flag", on_entity=True, params=[F("why", P("string"))])]),
+    # read-only + create-only fields on methods that take query parameters (long queries are tunnelled by a client with a
+    # QueryTunnellingThreshold: the exclusion must hold on that path too - mode c07http)
+    resource([seg("rqs", P("int64"))], _ENT,
+             _rests(_ENT, ("get", "create", "update", "partial_update", "batch_create", "batch_update", "batch_partial_update"),
+                    with_params=("create", "update", "partial_update", "batch_create", "batch_update", "batch_partial_update")),
+             read_only=("id",), create_only=("note",)),
 ]
 
 
